@@ -199,7 +199,7 @@ Fixpoint parse_value (fuel : nat) (s : list N) : option (json * list N) :=
       | 116 :: 114 :: 117 :: 101 :: r => Some (JBool true, r)
       | 102 :: 97 :: 108 :: 115 :: 101 :: r => Some (JBool false, r)
       | 34 :: r =>
-          match parse_string (S (length r)) r [] with
+          match parse_string (S fuel') r []   (* fuel' >= |r|: see parse_json *) with
           | Some (st, r') => Some (JStr st, r')
           | None => None
           end
@@ -232,7 +232,7 @@ Fixpoint parse_value (fuel : nat) (s : list N) : option (json * list N) :=
                  | S f' =>
                      match skip_ws s with
                      | 34 :: r0 =>
-                         match parse_string (S (length r0)) r0 [] with
+                         match parse_string (S fuel') r0 [] with
                          | Some (k, r1) =>
                              match skip_ws r1 with
                              | 58 :: r2 =>
@@ -268,6 +268,9 @@ Fixpoint parse_value (fuel : nat) (s : list N) : option (json * list N) :=
       end
   end%N.
 
+(** fuel: [S (length s)] at the top, one less per nesting level; the text still to be read at
+    nesting depth d is at most [length s - d] long, so the fuel also bounds every string body
+    (computing [length] of the rest for every string made parsing quadratic). *)
 Definition parse_json (s : list N) : option json :=
   match parse_value (S (length s)) s with
   | Some (v, r) => match skip_ws r with [] => Some v | _ => None end
